@@ -22,6 +22,9 @@ pub enum Kind {
     Stray { kind: u8, a: u32, b: u32 },
     /// raw bytes
     Raw { bytes: Vec<u8>, fix_crc: bool },
+    /// `count` copies of the smallest frame of the given kind (0 empty data frame, 1 sync, 2 dud ack, 3 disconnect,
+    /// 4 disconnect-ack, 5 handshake ack), one per server step
+    TinyBurst { kind: u8, count: u16 },
 }
 
 #[derive(Clone, Debug, Serialize, Deserialize)]
@@ -55,6 +58,7 @@ fn kind_strategy() -> impl Strategy<Value = Kind> {
         1 => any::<u32>().prop_map(|nonce| Kind::Ack { nonce }),
         2 => (0u8..8, any::<u32>(), any::<u32>()).prop_map(|(kind, a, b)| Kind::Stray { kind, a, b }),
         1 => (proptest::collection::vec(any::<u8>(), 0..60), any::<bool>()).prop_map(|(bytes, fix_crc)| Kind::Raw { bytes, fix_crc }),
+        3 => (0u8..6, prop_oneof![1u16..20, 20u16..400]).prop_map(|(kind, count)| Kind::TinyBurst { kind, count }),
     ]
 }
 
@@ -95,7 +99,7 @@ impl Check for C18 {
     }
 
     fn rule(&self) -> String {
-        "case = a real Server (limits 1..3 or 200, generated packet-size / allocation settings so that some requests are refused) and up to five spoofable source addresses sending, in a generated interleaving with waits of 0..25 s (so that all ten SYN-ACK resends and the pending-entry expiry are observed): well-formed padded SYNs (also wrong version, extreme limits), repeats of the previous SYN, SYN-typed frames of every length below 1472 with a valid checksum, handshake ACKs with arbitrary nonces, frames of every other type, raw bytes. No address ever completes the handshake. Oracle after every server step, per address: bytes sent to it are 0 or strictly less than the bytes received from it; a datagram that is not a full-size SYN produces no reply at all. Non-trivial = the server sent at least one byte to an unverified address. Distinct = distinct serialised case.".into()
+        "case = a real Server (limits 1..3 or 200, generated packet-size / allocation settings so that some requests are refused) and up to five spoofable source addresses sending, in a generated interleaving with waits of 0..25 s (so that all ten SYN-ACK resends and the pending-entry expiry are observed): well-formed padded SYNs (also wrong version, extreme limits), repeats of the previous SYN, SYN-typed frames of every length below 1472 with a valid checksum, handshake ACKs with arbitrary nonces, frames of every other type, bursts of up to 400 minimum-size frames (10..15 bytes) one per step, raw bytes. No address ever completes the handshake. Oracle after every server step, per address: bytes sent to it are 0 or strictly less than the bytes received from it; a datagram that is not a full-size SYN produces no reply at all, and copies of a SYN-ACK are never less than 2 s apart. Non-trivial = the server sent at least one byte to an unverified address. Distinct = distinct serialised case.".into()
     }
 
     fn assumptions(&self) -> Vec<String> {
@@ -138,9 +142,60 @@ impl Check for C18 {
             None
         };
 
+        // SYN-ACK emission times per (address, nonce): a resend belongs to the 2 s timer, never to a datagram
+        let mut synack_times: HashMap<(std::net::SocketAddr, u32), u64> = HashMap::new();
+        let mut seen_synack = 0usize;
+        let mut check_synack_spacing = |w: &World, seen: &mut usize, times: &mut HashMap<(std::net::SocketAddr, u32), u64>| -> Option<Violation> {
+            while *seen < w.wire.len() {
+                let r = &w.wire[*seen];
+                *seen += 1;
+                if r.from != w.server_addr {
+                    continue;
+                }
+                if let Some(Frame::HandshakeSynAckFrame(f)) = Frame::read(&r.bytes) {
+                    if let Some(prev) = times.insert((r.to, f.nonce), r.t_us) {
+                        if r.t_us + 1000 < prev + 2_000_000 {
+                            return Some(Violation::new(
+                                "oracle:c18:synack_resent_early",
+                                format!("the server re-sent its SYN-ACK to the unverified address {} only {} us after the previous copy (t={} us); resends are 2 s apart and nothing an unverified address sends may trigger one", r.to, r.t_us - prev, r.t_us),
+                            ));
+                        }
+                    }
+                }
+            }
+            None
+        };
+
         for op in c.ops.iter() {
             let a = raw_addr(op.addr as u32);
             let mut full_syn = false;
+            if let Kind::TinyBurst { kind, count } = &op.kind {
+                classes.push("tiny_burst");
+                let frame: Vec<u8> = match kind % 6 {
+                    0 => Frame::DataFrame(DataFrame { sequence_id: 0, nonce: false, datagrams: vec![] }).write().to_vec(),
+                    1 => Frame::SyncFrame(SyncFrame { next_frame_id: None, next_packet_id: None }).write().to_vec(),
+                    2 => Frame::AckFrame(AckFrame { frame_window_base_id: 0, packet_window_base_id: 0, frame_acks: vec![] }).write().to_vec(),
+                    3 => Frame::DisconnectFrame(DisconnectFrame {}).write().to_vec(),
+                    4 => Frame::DisconnectAckFrame(DisconnectAckFrame {}).write().to_vec(),
+                    _ => Frame::HandshakeAckFrame(HandshakeAckFrame { nonce_ack: 1 }).write().to_vec(),
+                };
+                for _ in 0..*count {
+                    w.send_raw(a, w.server_addr, &frame, 0);
+                    *rx.entry(a).or_insert(0) += frame.len() as u64;
+                    w.advance(step_us.min(20_000));
+                    w.step_server();
+                    if let Some(v) = account(&w, &mut seen_wire, &mut tx, &rx) {
+                        return CaseResult { violation: Some(v), nontrivial: true, classes };
+                    }
+                    if let Some(v) = check_synack_spacing(&w, &mut seen_synack, &mut synack_times) {
+                        return CaseResult { violation: Some(v), nontrivial: true, classes };
+                    }
+                }
+                if tx.get(&a).copied().unwrap_or(0) > 0 {
+                    replied = true;
+                }
+                continue;
+            }
             let bytes: Vec<u8> = match &op.kind {
                 Kind::Syn { version, nonce, rate, size, alloc } => {
                     full_syn = true;
@@ -187,6 +242,7 @@ impl Check for C18 {
                         bytes.clone()
                     }
                 }
+                Kind::TinyBurst { .. } => unreachable!(),
             };
             // is this really a full-size, well-formed SYN?
             let is_full_syn = full_syn && bytes.len() == 1472 && matches!(Frame::read(&bytes), Some(Frame::HandshakeSynFrame(_)));
@@ -195,6 +251,9 @@ impl Check for C18 {
             *rx.entry(a).or_insert(0) += bytes.len() as u64;
             w.step_server();
             if let Some(v) = account(&w, &mut seen_wire, &mut tx, &rx) {
+                return CaseResult { violation: Some(v), nontrivial: true, classes };
+            }
+            if let Some(v) = check_synack_spacing(&w, &mut seen_synack, &mut synack_times) {
                 return CaseResult { violation: Some(v), nontrivial: true, classes };
             }
             let sent_after = tx.get(&a).copied().unwrap_or(0);
